@@ -342,6 +342,38 @@ static void __attribute__((noinline)) streams_build(long n) {
   }
 }
 
+/* a heap Tuple filled from a source whose items are made while it is filled (a Map whose function allocates): collections run in
+   the middle of the fill; every item must be alive and right afterwards.  how: 0 concat, 1 the constructor, 2 assign */
+static var fill_fn(var x) { return new(Int, $I(c_int(x) + 1)); }
+static long __attribute__((noinline)) tuplefill_run(long n, int how) {
+  long bad = 0;
+  var src = new(Array, Int); for (long i = 0; i < n; i++) push(src, $I(i));
+  var fn = $(Function, fill_fn);
+  var m = new(Map, src, fn);
+  var t = NULL;
+  if (how == 0) { t = new(Tuple); concat(t, m); }
+  else if (how == 1) { t = new_with(Tuple, m); }
+  else { t = new(Tuple, $I(0)); assign(t, m); }
+  if ((long)len(t) != n) bad++;
+  for (long i = 0; i < n && i < (long)len(t); i++) {
+    var it = get(t, $I(i));
+    if (!mem(current(GC), it) || type_of(it) != Int || c_int(it) != i + 1) bad++;
+  }
+  return bad;
+}
+/* the Function object a Thread was made from is held by the Thread */
+static var thr_fn(var args) { return NULL; }
+static long __attribute__((noinline)) threadfunc_run(volatile var* slot) {
+  var fn = new(Function, $(Function, thr_fn));
+  uintptr_t hidden = (uintptr_t)fn ^ PMASK;
+  *slot = new(Thread, fn);
+  fn = NULL;
+  scrub(); do_collect(0); do_collect(1);
+  long bad = mem(current(GC), (var)(hidden ^ PMASK)) ? 0 : 1;
+  *slot = NULL;
+  return bad;
+}
+
 static int kind_of(const char* s) { for (int k = 1; k <= K_TREEK; k++) if (!strcmp(s, KN[k])) return k; return 0; }
 
 static int wfd = 1;
@@ -558,6 +590,16 @@ static int __attribute__((noinline)) real_main(int argc, char** argv) {
       HC_TRY(streams_build(n); scrub(); do_collect(0); do_collect(1); do_collect(0));
       long twice = 0, gone = 0; for (long i = 0; i < n; i++) { if (fin_count[1000 + i] > 1) twice++; if (fin_count[1000 + i] == 1) gone++; }
       ev_begin("bulk"); ev_int("n", n); ev_int("rooted", 0); ev_int("lost", 0); ev_int("twice", twice); ev_int("stale", 0); ev_int("gone", gone);
+      ev_str("exc", hc_exc); ev_int("line", cur_line); ev_end();
+    } else if (hc_is(0, "tuplefill")) {
+      long n = (long)hc_int(1); int how = (int)hc_int(2); volatile long bad = -1; bulkn = 0;
+      HC_TRY(bad = tuplefill_run(n, how));
+      ev_begin("bulk"); ev_int("n", n); ev_int("rooted", 1); ev_int("lost", bad); ev_int("twice", 0); ev_int("stale", 0); ev_int("gone", 0);
+      ev_str("exc", hc_exc); ev_int("line", cur_line); ev_end();
+    } else if (hc_is(0, "threadfunc")) {
+      volatile long bad = -1; bulkn = 0;
+      HC_TRY(bad = threadfunc_run(&ROOTSLOT(29)));
+      ev_begin("bulk"); ev_int("n", 1); ev_int("rooted", 1); ev_int("lost", bad); ev_int("twice", 0); ev_int("stale", 0); ev_int("gone", 0);
       ev_str("exc", hc_exc); ev_int("line", cur_line); ev_end();
     } else if (hc_is(0, "tuplenull")) {
       volatile long bad = -1; bulkn = 2;
